@@ -248,6 +248,9 @@ class EvalMixin:
     def binop(self, st, op, a, b, node):
         num = (T.Int, T.Real)
         if isinstance(op, ast.Add):
+            # str + Optional[str]: Python raises TypeError when the value is None -> obligation "not None", then plain concatenation
+            if a.ty == T.Str and isinstance(b.ty, T.Opt) and b.ty.t == T.Str: b = self.unwrap_opt(st, b, node, "str-plus-None")
+            if b.ty == T.Str and isinstance(a.ty, T.Opt) and a.ty.t == T.Str: a = self.unwrap_opt(st, a, node, "str-plus-None")
             if a.ty == T.Str and b.ty == T.Str: return SV(T.Str, z3.Concat(a.t, b.t))
             if a.ty == T.Str or b.ty == T.Str:
                 if not self.spec: self.oblige(st, z3.BoolVal(False), "str-plus-nonstr", node)
